@@ -220,6 +220,19 @@ def r_fmt_pair(ck: Checker) -> None:
     ok = len(pk) == 1 and len(up) == 1 and is_const(kw(pk[0], "use_bin_type") or ast.Constant(value=None), True) \
         and is_const(kw(up[0], "raw") or ast.Constant(value=None), False)
     (ck.holds if ok else ck.violation)("R-FMT-PAIR", f, f.node, what, **({} if ok else {"construct": f"packb {[norm(c)[:60] for c in pk]} / unpackb {[norm(c)[:60] for c in up]}"}))
+    # codec options of the JSON writer: only options that leave the encoded values alone (layout only)
+    fj = ck.repo.func(SER, f"{MIXIN}.to_jsonb")
+    LAYOUT_ONLY = {"OPT_INDENT_2", "OPT_APPEND_NEWLINE"}
+    what = "to_jsonb passes orjson no option that changes how a value is encoded (the reader has no matching option)"
+    used: set[str] = set()
+    for n_ in ast.walk(fj.node):
+        if isinstance(n_, ast.Attribute) and n_.attr.startswith("OPT_") and norm(n_.value) == "orjson":
+            used.add(n_.attr)
+    alter = sorted(used - LAYOUT_ONLY)
+    if alter:
+        ck.violation("R-FMT-PAIR", fj, fj.node, what, construct=f"to_jsonb passes orjson.{alter[0]} (values are written in a form the reader does not undo)")
+    else:
+        ck.holds("R-FMT-PAIR", fj, fj.node, what, options=sorted(used))
     f = ck.repo.func(SER, f"{MIXIN}.to_json")
     cs = [c for c in walk_body(f.node.body) if isinstance(c, ast.Call) and isinstance(c.func, ast.Attribute) and c.func.attr == "to_jsonb"]
     what = "to_json is to_jsonb decoded as UTF-8"
@@ -304,6 +317,9 @@ def run(ck: Checker) -> None:
     ck.guard("R-SINGLETON-RT", lambda: r_singleton_rt(ck))
     ck.guard("R-FMT-PAIR", lambda: r_fmt_pair(ck))
     ck.guard("R-IDX-PAIR", lambda: r_idx_pair(ck))
+    # a multi-origin must come back equal: its derived source follows the members' sources by value
+    from .c15 import r_multiorigin_init
+    ck.guard("R-MULTIORIGIN", lambda: r_multiorigin_init(ck, "R-MULTIORIGIN"))
     # options of a failed / finished call must not leak into the next (otherwise a later plain dump is not readable in a fresh process)
     from .c16 import find_slots, r_opt_pair
     ck.guard("R-OPT-PAIR", lambda: r_opt_pair(ck, find_slots(ck)))
